@@ -242,3 +242,87 @@ Proof.
   repeat split. intros tg old. rewrite advanced_bag_panics; auto.
 Qed.
 End Advanced.
+
+(** ** the extracted function itself: [exec c] in its parallel branch over an indexed source *)
+Definition c_st (c : case) : pstate Z :=
+  let st0 := build (skipn (c_pre c) (c_input c)) (to_ops 0 (c_ops c)) in
+  match c_term c with
+  | TForEach => apply_stage st0 (SMap (length (c_ops c)) (fun x => x))
+  | _ => st0
+  end.
+Definition c_p (c : case) : par Z := term_par (ps_par (c_st c)) (c_term c) (length (c_ops c)).
+(** the value of the sequential branch for the same computation *)
+Definition c_seqval (c : case) : result :=
+  fst (finish_seq (c_term c) (flat_map (trace (c_p c)) (ps_src (c_st c))) (ps_src (c_st c)) (c_p c)).
+
+Lemma complete_is_run len known stop panics r rounds : forall s,
+  exists extra, complete len known stop panics r rounds s
+                = run len known stop panics (m_dospawn r) (m_nextc r) s extra.
+Proof.
+  induction rounds as [|n IH]; intros s; cbn [complete]; [exists []; reflexivity|].
+  destruct (all_doneb s); [exists []; reflexivity|].
+  destruct (IH (run len known stop panics (m_dospawn r) (m_nextc r) s (seq 0 (S (length (ws s)))))) as [e He].
+  exists (seq 0 (S (length (ws s))) ++ e). rewrite He. unfold Machine.run. rewrite fold_left_app. reflexivity.
+Qed.
+
+Lemma run_app len known stop panics ds nc s a b :
+  run len known stop panics ds nc (run len known stop panics ds nc s a) b
+  = run len known stop panics ds nc s (a ++ b).
+Proof. unfold Machine.run. rewrite fold_left_app. reflexivity. Qed.
+
+Lemma runner_new_len params task len avail r :
+  runner_new params task len avail = Some r -> r_input_len r = len.
+Proof.
+  unfold runner_new. destruct (calc_chunk_size _ _ _ _); cbn [obind]; [|discriminate].
+  intros [= <-]. reflexivity.
+Qed.
+
+Lemma shift_res_0 r : shift_res 0 r = r.
+Proof. destruct r as [| | | |[[i v]|]| | |]; reflexivity. Qed.
+
+Theorem exec_value (c : case) :
+  c_panic c = None -> c_pre c = 0 -> c_macro c = false -> c_iter c = false ->
+  (forall task len r, runner_new (ps_params (c_st c)) task len (c_avail c) = Some r -> runner_wf r) ->
+  (kind_of (c_p c) = KMap -> forall x, length (yields (trace (c_p c) x)) = 1) ->
+  (forall f, red_family (c_term c) = Some f ->
+     (forall a b c0, f (f a b) c0 = f a (f b c0)) /\ (forall a b, f a b = f b a)) ->
+  o_sequential (exec c) = false -> o_complete (exec c) = true -> o_result (exec c) <> RPanic ->
+  req (o_result (exec c)) (c_seqval c).
+Proof.
+  intros Hpanic Hpre Hmacro Hiter Hwf Hone Hop.
+  unfold exec, exec0, c_seqval, c_p, c_st in *.
+  rewrite Hpanic, Hpre, Hmacro, Hiter in *. cbn [hits andb skipn] in *.
+  set (st0 := build (c_input c) (to_ops 0 (c_ops c))) in *.
+  set (st := match c_term c with
+             | TForEach => apply_stage st0 (SMap (length (c_ops c)) (fun x => x))
+             | _ => st0
+             end) in *.
+  set (p := term_par (ps_par st) (c_term c) (length (c_ops c))) in *.
+  destruct (is_sequential (ps_params st) || empty_collect (kind_of (ps_par st)) (c_term c)) eqn:Eseq.
+  - (* sequential branch: excluded *)
+    destruct (finish_seq (c_term c) (flat_map (trace p) (ps_src st)) (ps_src st) p). cbn. discriminate.
+  - set (il := if c_known c || (0 <? ps_runs st)%nat || (ordered_of (c_term c) && (length (c_input c) <? 0)%nat)
+               then Some (N.of_nat (length (ps_src st))) else None) in *.
+    destruct (runner_new (ps_params st) (kernel_task (kind_of (ps_par st)) (c_term c)) il (c_avail c)) as [r|] eqn:Er;
+      [|cbn; intros _ _ H; congruence].
+    pose proof (Hwf _ _ _ Er) as Hr. pose proof (runner_new_len _ _ _ _ Er) as Hlen.
+    destruct (complete_is_run (length (ps_src st)) (match il with Some _ => true | None => false end)
+                (if is_find (c_term c) then stop_of p (ps_src st) else fun _ => false)
+                (fun _ : nat => false) r (c_fuel c)
+                (run (length (ps_src st)) (match il with Some _ => true | None => false end)
+                     (if is_find (c_term c) then stop_of p (ps_src st) else fun _ => false)
+                     (fun _ : nat => false) (m_dospawn r) (m_nextc r) (init (m_c0 r)) (c_sched c))) as [extra He].
+    cbn [fst snd o_result o_sequential o_complete] in *.
+    rewrite He, run_app.
+    set (s := run _ _ _ _ _ _ _ (c_sched c ++ extra)).
+    intros _ Hdone Hres.
+    destruct (any_dead s); [rewrite Hdone in Hres; cbn in Hres; congruence|].
+    rewrite Hdone. cbn [andb negb]. rewrite shift_res_0.
+    replace (if (ps_runs st =? 0)%nat then Nat.min 0 (length (c_input c)) else 0%nat) with 0%nat
+      by (destruct (ps_runs st =? 0)%nat; reflexivity).
+    assert (Es : s = mrun r (length (ps_src st))
+                          (if is_find (c_term c) then stop_of p (ps_src st) else @nostop) (c_sched c ++ extra)).
+    { unfold s, mrun, mrunp. rewrite Hlen. reflexivity. }
+    rewrite Es. apply exec_value_indexed; auto.
+    rewrite <- Es. apply all_doneb_spec. exact Hdone.
+Qed.
